@@ -866,7 +866,7 @@ package kcache
 @*/
 
 /*@ func (*kcache._ticker).run
-  props C13 C12
+  props C13 C12 C03
   requires [valid-t] (and (not (= {t} vnil)) (not (= {t.nextch} vnil)) (not (= {t.resetch} vnil)) (not (= {t.stopch} vnil)) (not (= {t.donech} vnil))
         (>= {t.period} 0) (<= 0.0 {t.fuzz}) (<= {t.fuzz} 1.0))
   requires [has-closed-nothing] (forall ((x V)) (not (select $closed x)))
@@ -1536,7 +1536,7 @@ package kcache
   ensures (=> (= result1 vnil) (not (= result0 vnil)))
 @*/
 /*@ func (*kcache.publisher).SubscribeForFilter
-  props C08
+  props C08 C06
   theory wiring filters
   requires (and (not (= {s} vnil)) (not (= {s.log} vnil)) (not (= {s.subscribech} vnil)) (not (= {s.lc} vnil)) (not {closed(s.subscribech)}))
   at call(newFilterSubscription) assert [deferred-readiness-with-a-filter-that-rejects-everything] (and $3 (rejectsAll $2))
@@ -1612,7 +1612,7 @@ package kcache
 @*/
 
 /*@ func (*kcache._cache).sync
-  props C15 C12
+  props C15 C12 C03 C01
   theory cachereq
   requires (and (not (= {c} vnil)) (not (= {c.syncch} vnil)) (not (= {c.lc} vnil)) (not {closed(c.syncch)}))
   requires [list-elements-nonnil] (listNonNil {list})
